@@ -28,7 +28,7 @@ OPS = ["=", "==", "!", "!=", "+", "++", "-", "--", "->", "*", "/", "%", ">", ">=
        "&&", "|", "||", "^", "~", "?", ":", ".", ";", ",", "@", "(", ")", "{", "}", "[", "]"]
 MUNCH = ["+++", "-->", "<==", "&&&", "|||", "!==", "--->", "++++", ">>=", "<-", "=>", "===", "+-+",
          "a--b", "a-->b", "x+++y", "1b1b", "0b&1b", "a.b.c", "1f.5f"]
-UNKNOWN = ["#", "$", "`", "\\", "\x7f", "\xe9", "\x01"]
+UNKNOWN = ["#", "$", "`", "\\", "\x7f", "\xe9", "\x01", "\x00", "\x00"]
 STR_BODIES = ["", "a", "a b", "//not a comment", "a\nb", "\n", "a\n\nb\n", "\t", "it's", "x+=1;",
               "/* */", "a\r\nb", "  ", "\\", "caf\xe9", "@tracked", "line1\n    line2"]
 CHAR_BODIES = ["a", " ", '"', "\n", "\t", "/", "0", "\\", "\xe9"]
